@@ -81,8 +81,10 @@ def check_compression(ctx):
     fo = m.func('gambit.seq.SequenceFile.open')
     rep.functions.add(fo.qualname)
     rets = [s for s in fo.node.body if isinstance(s, ast.Return)]
-    oko = len(rets) == 1 and isinstance(rets[0].value, ast.Call) and m.resolve_call(fo, rets[0].value) == 'gambit.util.io.open_compressed' and [u(a) for a in rets[0].value.args[:3]] == ['self.path', fo.params()[1], 'compression']
-    cdef = [s for s in fo.node.body if isinstance(s, ast.Assign) and u(s.targets[0]) == 'compression']
+    oko = len(rets) == 1 and isinstance(rets[0].value, ast.Call) and m.resolve_call(fo, rets[0].value) == 'gambit.util.io.open_compressed' and [u(a) for a in rets[0].value.args[:2]] == ['self.path', fo.params()[1]] \
+        and len(rets[0].value.args) >= 3
+    cname = u(rets[0].value.args[2]) if oko else None
+    cdef = [s for s in fo.node.body if isinstance(s, ast.Assign) and u(s.targets[0]) == cname]
     oko = oko and len(cdef) == 1 and isinstance(cdef[0].value, ast.IfExp) and atoms(cdef[0].value.test) == {('is', 'None', 'self.compression')} and is_const(cdef[0].value.body, 'none') and u(cdef[0].value.orelse) == 'self.compression'
     rep.add('F4', fo.site(), "SequenceFile.open forwards its own path and compression ('none' when unset)", oko, expected="open_compressed(self.path, mode, 'none' if self.compression is None else self.compression)", found=[u(s) for s in cdef + rets],
             stmt='SequenceFile.open')
@@ -108,7 +110,13 @@ def check_compression(ctx):
     rep.add('F4', fa.site(sk[0] if sk else (gs[0] if gs else None)), 'the stream is rewound to the start after sniffing (the magic bytes are part of the data)', oks, expected=f'compression = guess_compression({fv}); {fv}.seek(0)',
             found=[u(s) for s in gs + sk], stmt='rewind')
     cv = u(gs[0].targets[0]) if gs else None
-    bins = [s for s in stmts_in(fa.node.body) if isinstance(s, ast.Assign) and u(s.targets[0]) == 'binary']
+    rets_a = [s for s in stmts_in(fa.node.body) if isinstance(s, ast.Return)]
+    bname = None
+    if len(rets_a) == 1 and isinstance(rets_a[0].value, ast.IfExp):
+        for arm in (rets_a[0].value.body, rets_a[0].value.orelse):
+            if isinstance(arm, ast.Name):
+                bname = arm.id
+    bins = [s for s in stmts_in(fa.node.body) if isinstance(s, ast.Assign) and u(s.targets[0]) == bname]
     table = {}
     for s in bins:
         for a in path_atoms(gma[s]):
@@ -121,9 +129,9 @@ def check_compression(ctx):
     if len(rets) == 1 and isinstance(rets[0].value, ast.IfExp):
         ie = rets[0].value
         tw = ie.body
-        okt = isinstance(tw, ast.Call) and u(tw.func) == 'TextIOWrapper' and [u(a) for a in tw.args] == ['binary'] and get_kw(tw, 'newline') is None and u(ie.orelse) == 'binary' \
+        okt = isinstance(tw, ast.Call) and u(tw.func) == 'TextIOWrapper' and [u(a) for a in tw.args] == [bname] and get_kw(tw, 'newline') is None and u(ie.orelse) == bname \
             and atoms(ie.test) == {('eq', "'t'", f'{md}[1]')}
-    rep.add('F4', fa.site(rets[0] if rets else None), 'text mode wraps the (decompressed) stream in a TextIOWrapper with universal newlines (LF and CRLF equivalent)', okt, expected="TextIOWrapper(binary, **kwargs) if mode[1] == 't' else binary",
+    rep.add('F4', fa.site(rets[0] if rets else None), 'text mode wraps the (decompressed) stream in a TextIOWrapper with universal newlines (LF and CRLF equivalent)', okt, expected="TextIOWrapper(<binary stream>, **kwargs) if mode[1] == 't' else <binary stream>",
             found=[u(r.value) for r in rets], stmt='text wrapper')
     rs = [s for s in stmts_in(fa.node.body) if isinstance(s, ast.Raise)]
     rep.add('F4', fa.site(rs[0] if rs else None), 'auto detection is for reading only', any(('ne', "'r'", f'{md}[0]') in path_atoms(gma[r]) for r in rs), expected="raise when mode[0] != 'r'", found=[sorted(path_atoms(gma[r])) for r in rs], stmt='read only')
